@@ -436,19 +436,30 @@ pub fn c16(rep: &mut Report, scratch: &std::path::Path, rng: &mut Rng, corpora: 
                 match paginate(w.mem(), &base, page) {
                     Ok((seq, totals, pages)) => {
                         if pages.len() > 1 { w.rep.count("multi_page_queries"); }
-                        let over = if frames.len() > 20.max(4 * page) { "more-frames-than-candidate-limit" } else { "within-candidate-limit" };
+                        // Two known page-size dependences (see known_findings.json): the Tantivy candidate limit max(20, 4*(top_k+offset))
+                        // and the per-document snippet cap (= top_k). A query for which neither can bind must paginate exactly; the class
+                        // is part of the finding key so that a discrepancy there is never mistaken for the known ones.
+                        let max_per_frame = frames.iter().map(|f| single_seq.iter().filter(|h| h.0 == *f).count()).max().unwrap_or(0);
+                        // the slicer stops as soon as it has top_k snippets of a document, so a document with exactly top_k snippets can
+                        // already differ (a later occurrence no longer extends its last snippet): the cap is out of play only below that
+                        let over = match (frames.len() > 20, max_per_frame >= page) {
+                            (true, _) => "more-frames-than-candidate-limit",
+                            (false, true) => "within-candidate-limit:snippet-cap-binding",
+                            (false, false) => "within-candidate-limit:snippet-cap-not-binding",
+                        };
+                        w.rep.count(&format!("paginated[{over}]"));
                         // recorded without stopping the corpus: each query is its own observation
                         let d = w.detail();
                         if totals.iter().any(|t| *t != totals[0]) || totals[0] != single.total_hits {
-                            w.rep.violation("C16:total-hits-varies", format!("{over}: total_hits per page {:?}, single request {} (page size {page})", totals.iter().take(8).collect::<Vec<_>>(), single.total_hits), d.clone());
+                            w.rep.violation(&format!("C16:total-hits-varies:{over}"), format!("{over}: total_hits per page {:?}, single request {} (page size {page})", totals.iter().take(8).collect::<Vec<_>>(), single.total_hits), d.clone());
                         }
                         let mut seen = BTreeSet::new();
                         if let Some(dup) = seq.iter().find(|h| !seen.insert(**h)) {
-                            w.rep.violation("C16:hit-repeated", format!("{over}: hit {dup:?} appears on two pages (page size {page})"), d.clone());
+                            w.rep.violation(&format!("C16:hit-repeated:{over}"), format!("{over}: hit {dup:?} appears on two pages (page size {page})"), d.clone());
                         } else if seq != single_seq {
                             let same_set = seq.iter().collect::<BTreeSet<_>>() == single_seq.iter().collect::<BTreeSet<_>>();
                             let why = if same_set { "same-hits-different-order" } else if seq.len() < single_seq.len() { "hits-skipped" } else { "different-hits" };
-                            w.rep.violation(&format!("C16:sequence-differs:{why}"), format!("{over}: concatenated pages have {} hits, single request {} (page size {page})", seq.len(), single_seq.len()), d);
+                            w.rep.violation(&format!("C16:sequence-differs:{why}:{over}"), format!("{over}: concatenated pages have {} hits, single request {} (page size {page})", seq.len(), single_seq.len()), d);
                         } else {
                             w.rep.count("queries_paginating_identically");
                         }
@@ -494,12 +505,14 @@ fn battery(mem: &mut Memvid, lex: &[SearchRequest], vecq: &[Vec<f32>], tl: &[(Op
 }
 
 fn diff_battery(a: &Battery, b: &Battery) -> Option<(String, String)> {
-    for (x, y) in a.0.iter().zip(b.0.iter()) {
+    for (i, (x, y)) in a.0.iter().zip(b.0.iter()).enumerate() {
         if x.1 != y.1 {
+            // the second half of the battery goes through the sketch pre-filter
+            let path = if i >= a.0.len() / 2 { "with-sketch-prefilter" } else { "no-sketch" };
             let fx: BTreeSet<u64> = x.1.iter().map(|h| h.0).collect();
             let fy: BTreeSet<u64> = y.1.iter().map(|h| h.0).collect();
             let why = if fx != fy { "different-frames" } else { "same-frames-different-ranges" };
-            return Some((format!("lexical:{why}"), format!("query {:?}: {} vs {} hits; frames {:?} vs {:?}", x.0, x.1.len(), y.1.len(), fx.iter().take(8).collect::<Vec<_>>(), fy.iter().take(8).collect::<Vec<_>>())));
+            return Some((format!("lexical:{why}:{path}"), format!("query {:?}: {} vs {} hits; frames {:?} vs {:?}", x.0, x.1.len(), y.1.len(), fx.iter().take(8).collect::<Vec<_>>(), fy.iter().take(8).collect::<Vec<_>>())));
         }
     }
     for (x, y) in a.1.iter().zip(b.1.iter()) {
@@ -528,7 +541,8 @@ pub fn c28(rep: &mut Report, scratch: &std::path::Path, rng: &mut Rng, corpora: 
             }
             if w.failed || !exec_op(&mut w, &cfg, &json!({"op": "commit"})) { continue; }
             let uris = corpus_uris(&w);
-            let lex: Vec<SearchRequest> = (0..24).map(|_| { let (_, mut r) = rand_request(&mut w, &uris); r.top_k = 50; r.no_sketch = true; r }).collect();
+            // first half without, second half with the sketch pre-filter (the sketch track is persisted and reloaded too)
+            let lex: Vec<SearchRequest> = (0..24).map(|i| { let (_, mut r) = rand_request(&mut w, &uris); r.top_k = 50; r.no_sketch = i < 12; r }).collect();
             w.rep.add("lexical_queries_per_battery", lex.len() as u64);
             let vecq: Vec<Vec<f32>> = (0..6).map(|_| vec![w.rng.below(docs as u64) as f32 + 0.25, w.rng.below(5) as f32, 1.0, 0.5]).collect();
             let tl = vec![(None, None, false), (None, None, true), (Some(1_680_000_000), None, false), (None, Some(1_700_000_000), true)];
